@@ -10,15 +10,16 @@ ROUTES = ['create', 'as2', 'gen', 'meta', 'asE']
 def configs(tier, oracles=('model',)):
     cfgs = []
 
-    def add(dt, atom, it, route, nmax):
+    def add(dt, atom, it, route, nmax, features=()):
         cfgs.append({'dtype': dt, 'atom': atom, 'indextype': it, 'route': route, 'Nmax': nmax,
-                     'oracles': list(oracles)})
+                     'oracles': list(oracles), 'features': list(features)})
     if tier == 'quick':
         sel = [('<f8', [], 'int64', 'create'), ('>i4', [2], 'uint8', 'as2'), ('<f8', [2, 1], 'int32', 'gen'),
                ('>i4', [], 'int32', 'meta'), ('<c8', [2], 'int64', 'create'), ('|u1', [2, 1], 'uint8', 'as2'),
                ('<f8', [2], 'int16', 'asE'), ('>i4', [2, 3], 'int64', 'asE')]
         for dt, atom, it, route in sel:
             add(dt, atom, it, route, 3)
+        add('<i2', [], 'int8', 'create', 3, ['big'])      # index overflow of a small index type within reach
     else:
         # every (value type, byte order) x atom x index type, routes rotated so that each occurs with each atom
         i = 0
@@ -29,6 +30,8 @@ def configs(tier, oracles=('model',)):
                     i += 1
         for dt, atom, it, route in [('<f8', [], 'int64', 'create'), ('>i4', [2], 'uint8', 'as2')]:
             add(dt, atom, it, route, 5)
+        for dt, atom, it, route in [('<i2', [], 'int8', 'create'), ('|u1', [2], 'uint8', 'as2'), ('<f4', [], 'int8', 'gen')]:
+            add(dt, atom, it, route, 3, ['big'])
     cfgs.sort(key=lambda c: -c['Nmax'])
     return cfgs
 
